@@ -1,7 +1,7 @@
 (* Hist/ProofsC07Ex.v - concrete evaluations for C07 (vm_compute on the faithful string-level model):
-   F7a (empty newest file) is repaired (3aa388e): the former witness is a positive Example; still FALSE of the model of the code:
-   P4 inside the compaction window once the twin is complete (F7b) and "an acknowledged update is never hidden" after a torn write
-   (F7c); and an Example that the premises of the theorems hold for a trace whose operations have several crash states each. *)
+   F7a (empty newest file, 3aa388e), F7b (compaction twin, eb925d1) and F7c (update glued to a torn tail, 32b069b) are repaired: the
+   former refutation witnesses are positive Examples now (each says what the model answered before the fix); and an Example that the
+   premises of the theorems hold for a trace whose operations have several crash states each. *)
 From Coq Require Import List String Ascii Bool Arith ZArith.
 Import ListNotations.
 From BD.Hist Require Import GoMatch Model SModel Spec ProofsString ProofsRefine ProofsTop ProofsC06 ProofsC06Ex ProofsC07.
@@ -26,33 +26,44 @@ Example fixed_empty_newest :
              (crash_states loc dh (y_h (yrun loc dh sys_init es0)) oOpen) = true.
 Proof. repeat split; vm_compute; reflexivity. Qed.
 
-(* F7b (still open): killed inside the compaction of Close after the twin's status line is complete and before the original is
-   unlinked: recent 2 lists the run twice - the older run with acknowledged data is hidden.  (The second half of F7b - an empty twin
-   taking a slot - is gone with 3aa388e: in those crash states recent 2 now answers [q2; q1].) *)
-Lemma refuted_compaction_twin :
-  exists es now fs2, In fs2 (crash_states loc dh (y_h (yrun loc dh sys_init es)) (OClose now))
-    /\ sp_recent (sp_state es) a 2 = [q2; q1] /\ sp_recent (sp_state (es ++ [EOp (OClose now)])) a 2 = [q2; q1]
-    /\ snd (q_recent loc dh [] fs2 a 2) = [q2; q2].
-Proof.
-  exists es1, 6%Z, (nth 5 (crash_states loc dh (y_h (yrun loc dh sys_init es1)) (OClose 6%Z)) fs_empty).
-  split; [vm_compute; auto 10|]. vm_compute. auto.
-Qed.
-Example empty_twin_invisible :
-  snd (q_recent loc dh [] (nth 2 (crash_states loc dh (y_h (yrun loc dh sys_init es1)) (OClose 6%Z)) fs_empty) a 2) = [q2; q1]
-  /\ snd (q_recent loc dh [] (nth 3 (crash_states loc dh (y_h (yrun loc dh sys_init es1)) (OClose 6%Z)) fs_empty) a 2) = [q2; q1].
+(* F7b (fixed by eb925d1): killed inside the compaction of Close.  The copy is written as <file>_c.dat.tmp (matched by no pattern),
+   published with a rename, and from then on the readers drop the original (dropCompacted).  Before the fix the model answered
+   recent 2 = [q2; q2] in the crash state in which the compacted copy was complete and the original not yet unlinked - the older run
+   with acknowledged data was hidden; now ALL nine crash states of this Close answer [q2; q1], the one with both files included *)
+Definition closeStates := crash_states loc dh (y_h (yrun loc dh sys_init es1)) (OClose 6%Z).
+Example fixed_compaction_twin :
+  sp_recent (sp_state es1) a 2 = [q2; q1] /\ sp_recent (sp_state (es1 ++ [EOp (OClose 6%Z)])) a 2 = [q2; q1]
+  /\ List.length closeStates = 9
+  /\ forallb (fun fs' => match snd (q_recent loc dh [] fs' a 2), snd (q_latest loc dh [] fs' a None) with
+                         | [p; p'], LOk p'' => String.eqb (p_req p) "req-bbbb-2" && String.eqb (p_req p') "req-aaaa-1" && Nat.eqb (p_tag p'') 2
+                         | _, _ => false end) closeStates = true
+  /\ map (fun fs' => List.length (files fs')) closeStates = [2; 2; 2; 3; 3; 3; 3; 3; 2]%nat
+  /\ map e_name (files (nth 7 closeStates fs_empty))
+     = ["a.20240101.10:00:00.100.req-aaaa_c.dat"; "a.20240101.10:00:01.300.req-bbbb.dat"; "a.20240101.10:00:01.300.req-bbbb_c.dat"].
+Proof. repeat split; vm_compute; reflexivity. Qed.
+(* the temporary copy - empty, torn, complete - is invisible *)
+Example tmp_copy_invisible :
+  map e_name (files (nth 4 closeStates fs_empty))
+  = ["a.20240101.10:00:00.100.req-aaaa_c.dat"; "a.20240101.10:00:01.300.req-bbbb.dat"; "a.20240101.10:00:01.300.req-bbbb_c.dat.tmp"]
+  /\ forallb (fun i => match q_find loc dh (nth i closeStates fs_empty) a "req-bbbb-2" with
+                       | FFound _ fn p => String.eqb fn "a.20240101.10:00:01.300.req-bbbb.dat" && Nat.eqb (p_tag p) 2
+                       | _ => false end) [3; 4; 5; 6]%nat = true.
 Proof. split; vm_compute; reflexivity. Qed.
 
-(* F7c: a write torn by the kill leaves an unterminated tail; a status update ACCEPTED afterwards is glued to it: the
-   update (and, for a complete-but-unterminated tail, the torn status too) is lost *)
-Lemma refuted_glued_update :
-  exists es o fs' upd, In fs' (crash_states loc dh (y_h (yrun loc dh sys_init es)) o)
-    /\ prims loc dh upd {| hfs := fs'; hwr := None; hcache := [] |} <> []
-    /\ fpayload (q_find loc dh (hfs (apply loc dh {| hfs := fs'; hwr := None; hcache := [] |} upd)) a "req-bbbb-2") = Some q2.
-Proof.
-  exists es1, (OWrite 3 10 7%Z), (nth 1 (crash_states loc dh (y_h (yrun loc dh sys_init es1)) (OWrite 3 10 7%Z)) fs_empty),
-         (OUpdate a "req-bbbb-2" 9 10 8%Z).
-  split; [vm_compute; auto|]. split; [vm_compute; discriminate|]. vm_compute. reflexivity.
-Qed.
+(* F7c (fixed by 32b069b): a write torn by the kill leaves an unterminated tail; a status update recorded afterwards by a new process.
+   Before the fix the model glued the update to the torn tail: the line did not parse and find kept answering the OLD status q2 (the
+   acknowledged update was lost).  Now writer.open terminates the torn line first and the update (tag 9) is what find answers - for a
+   torn JSON prefix (crash state 1) and for a complete-but-unterminated status (crash state 2) *)
+Definition upd9 : op := OUpdate a "req-bbbb-2" 9 10 8%Z.
+Definition tornStates := crash_states loc dh (y_h (yrun loc dh sys_init es1)) (OWrite 3 10 7%Z).
+Example fixed_glued_update :
+  List.length tornStates = 4
+  /\ forallb (fun fs' => match fpayload (q_find loc dh (hfs (apply loc dh (fresh_state fs') upd9)) a "req-bbbb-2"),
+                               snd (q_latest loc dh [] (hfs (apply loc dh (fresh_state fs') upd9)) a None) with
+                         | Some p, LOk p' => Nat.eqb (p_tag p) 9 && Nat.eqb (p_tag p') 9
+                         | _, _ => false end) tornStates = true
+  /\ map (fun fs' => List.length (prims loc dh upd9 (fresh_state fs'))) tornStates = [3; 4; 4; 3]%nat.
+Proof. repeat split; vm_compute; reflexivity. Qed.
 
 (* the premises of the crash theorems are satisfiable: es1 followed by a write, a close, an update, a retention *)
 Definition DE7 := [a; ab].
@@ -65,6 +76,6 @@ Example crash_premises_satisfiable :
   /\ premisesb loc dh DE7 [] KE7 (es0 ++ [EOp (OUpdate a "req-aaaa-1" 5 11 9%Z)]) = true
   /\ premisesb loc dh DE7 [] KE7 (es0 ++ [EOp (ORemoveOld a 100%Z)]) = true
   /\ List.length (crash_states loc dh (y_h (yrun loc dh sys_init es1)) (OWrite 3 10 7%Z)) = 4
-  /\ List.length (crash_states loc dh (y_h (yrun loc dh sys_init es1)) (OClose 6%Z)) = 7
+  /\ List.length (crash_states loc dh (y_h (yrun loc dh sys_init es1)) (OClose 6%Z)) = 9
   /\ List.length (crash_states loc dh (y_h (yrun loc dh sys_init es0)) (OUpdate a "req-aaaa-1" 5 11 9%Z)) = 6.
 Proof. repeat split; vm_compute; reflexivity. Qed.
